@@ -159,6 +159,43 @@ def make_singleton_classes(log, tlog):
     return ts, [S0, S1, S2, S3, S4, S5]
 
 
+def _byvalue_classes():
+    """classes that dill pickles BY VALUE (they cannot be found by name: defined inside a function)
+    and whose methods use zero-argument super(), i.e. have a `__class__` closure cell"""
+    class SV(pool.SV):
+        def __init__(self, *args, **kwargs):
+            super().__init__(*args, **kwargs)
+
+        def who(self):
+            return __class__.__name__
+
+    class FV(pool.FV):
+        def __init__(self, *args, **kwargs):
+            super().__init__(*args, **kwargs)
+
+    class Tag:
+        def __init__(self, n):
+            super().__init__()
+            self.n = n
+
+        def __eq__(self, other):
+            return type(other).__name__ == "Tag" and other.n == self.n
+
+        def __hash__(self):
+            return hash(self.n)
+
+        def __repr__(self):
+            return "Tag(%d)" % self.n
+
+    def fact(n):
+        return 1 if n < 2 else n * fact(n - 1)         # a recursive local function: cell -> itself
+    Tag.fact = staticmethod(fact)
+    return {"SV": SV, "FV": FV, "Tag": Tag}
+
+
+BYVALUE = _byvalue_classes()
+
+
 class FalsyTableFilter(TableFilter):
     """the same filter, but the callable object itself is falsy (a legal filterfunc: only
     `filterfunc is None` means "no filter")"""
@@ -554,11 +591,17 @@ class Real:
     def dispatch(self, toks):
         op = toks[0]
         if op == "reset":
-            return self.reset()
+            r = self.reset()
+            # `reset byvalue`: every other SV / FV vertex is an instance of a twin class that dill pickles BY VALUE
+            # (defined inside a function) and whose methods use zero-argument super()
+            self.byvalue = len(toks) > 1 and toks[1] == "byvalue"
+            return r
         if op == "obs":
             return self.obs()
         if op == "vertex":
             cls = VCLS[toks[1]]
+            if getattr(self, "byvalue", False) and toks[1] in BYVALUE and len(self.V) % 2 == 1:
+                cls = BYVALUE[toks[1]]
             opts = toks[2:]
             ls = [self.pl(t) for t in self.opt(opts, "l").split(",") if t]
             us = [self.pv(t) for t in self.opt(opts, "u").split(",") if t]
@@ -573,6 +616,12 @@ class Real:
                 key = tuple(id(u_) for u_ in us)
                 us = self._shared_ulists.setdefault(key, us)
             uarg = (u_ for u_ in us) if kind == 0 else us if kind == 1 else tuple(us)
+            hook = self.opt(opts, "h")
+            if hook:
+                # a bound method of a universe among the constructor's attributes (so that it precedes the
+                # private attributes in the instance dict)
+                attrs = dict(attrs or {})
+                attrs["hook"] = self.pv(hook).add_vertex
             v = cls(links=ls, universes=uarg, attributes=attrs,
                     uid=(int(uid) if uid else None))
             return "ok V%d" % self.reg_v(v)
@@ -731,6 +780,15 @@ class Real:
                 val = (self.pv(spec[1]), (self.pv(spec[2]), 1), "s")
             elif spec[0] == "lst":
                 val = [self.pv(spec[1]), {"k": self.pv(spec[2])}]
+            elif spec[0] == "cons":
+                # a cons list (item, (item, (... None))) nested far deeper than the recursion limit allows
+                val = None
+                for i in range(int(spec[1])):
+                    val = (i % 7, val)
+            elif spec[0] == "bound":
+                val = self.pv(spec[1]).add_vertex
+            elif spec[0] == "byval":
+                val = BYVALUE["Tag"](int(spec[1]))
             elif spec[0] == "big":
                 # a large atom (str / bytes): pickle writes payloads >= 64 KiB through a separate path
                 n = int(spec[1])
